@@ -24,7 +24,7 @@ RULE = ("seeded class-based genotype matrices: phased (ploidy,n,m) and unphased 
         "frequencies None | scalar | vector inside (0,1) | vector with exact 0/1 entries; marker weights None | scalar incl. 0 | "
         "vector with zeros | integer vector | all zero | 1e-3..1e3 spread), a random permutation and a random sub-selection, both "
         "output formats, and (every 4th case) the factory classes.  History family: a live, invertible coancestry object (n 2..8, m > n) is "
-        "queried for every view and summary, then 3-7 random steps of reorder_taxa (non-identity) / sort_taxa / group_taxa / "
+        "queried for every view, element-access index form (none, int, slices, Ellipsis, mixed, negative, index arrays) and summary, then 3-7 random steps of reorder_taxa (non-identity) / sort_taxa / group_taxa / "
         "remove_taxa / select_taxa (continuing on the result) / mat assignment (same shape: permuted, scaled+ridge, fresh Gram) / no-op, "
         "with every view and summary re-judged against the CURRENT mat after each step.  Non-trivial: n >= 2 and m >= 2; distinct = digest of the raw "
         "allele array, labels and all arguments.")
@@ -281,6 +281,33 @@ def judge_readonly(ctx, cm, G, pair, axis, coords, wit, state=None):
             ctx.check(cl("C13.kinship"), v[1] == 0.5 * G[i, j] or (v[1] != v[1] and G[i, j] != G[i, j]), defsite(cm, "kinship"),
                       "kinship(i,j) == 0.5 * coancestry(i,j) (exact)", ic("element access"),
                       witness=dict(wit, i=i, j=j, got=v[1], mat=G), coords=coords)
+        # every index form the accessors accept (they forward the arguments to mat[...]); each answer is judged against the
+        # snapshot G, and the stored matrix must still equal G right after the access (an index that yields a numpy view
+        # must not be scaled in place).  Summaries below are judged against the same G, so they see any damage done here.
+        a, b = sorted((i, j)); b = b + 1
+        ia = numpy.array([i, j, (i + j) % n]); ib = numpy.array([j, j, i])
+        forms = [("no arguments", ()), ("single int (row)", (i,)), ("slices", (slice(a, b), slice(0, max(1, n - 1)))),
+                 ("single slice", (slice(a, b),)), ("Ellipsis", (Ellipsis,)), ("int and slice", (i, slice(None))),
+                 ("slice and int", (slice(None, None, 2), j)), ("negative ints", (-1 - i, -1 - j)),
+                 ("index arrays", (ia, ib)), ("single index array", (ia,)), ("int and Ellipsis", (j, Ellipsis))]
+        for fname, args in forms:
+            viewform = isinstance(G[args], numpy.ndarray) and numpy.shares_memory(G[args], G)
+            kind = "index form yields a view" if viewform else "index form yields a copy or scalar"
+            ref = numpy.array(G[args], copy=True)
+            for meth, hh in (("coancestry", 1.0), ("kinship", 0.5)):
+                site = defsite(cm, meth)
+                before = numpy.array(cm.mat, copy=True)  # blame only the access that changes the stored matrix
+                ok, got = returns(ctx, site, ic("element access"), coords, lambda: getattr(cm, meth)(*args), dict(wit, index=fname))
+                if not ok:
+                    continue
+                gotc = numpy.array(got, dtype=float, copy=True)
+                ctx.check(cl("C13.kinship"), gotc.shape == ref.shape and numpy.array_equal(gotc, hh * ref, equal_nan=True), site,
+                          "%s(index) == %s mat[index] (exact)" % (meth, "" if hh == 1.0 else "0.5 *"), ic("element access"),
+                          witness=dict(wit, index=fname, got=gotc, expected=hh * ref, mat=G), coords=coords)
+                del got
+                ctx.check(cl("C13.intact"), numpy.array_equal(cm.mat, before, equal_nan=True), site,
+                          "mat unchanged by element access (%s)" % kind, ic("after read-only calls"),
+                          witness=dict(wit, index=fname, before=before, after=cm.mat), coords=coords)
     if not finite:
         return
     # -- summaries against direct evaluation on the matrix
